@@ -9,10 +9,24 @@ PROP = "C12"
 SAMPLES = [8, 16, 24, 40, 0x1000, 0x7FFF_FFFF_FFF8, (1 << 63) + 8, (1 << 64) - 8]
 
 
-def union_word_leaf(word):
+ALIGNS = (1, 2, 4, 8, 16, 64)
+
+
+def union_word_leaf(word, align_of=None):
+    """Leaf values for expressions over the union's stored word; `align_of` maps a type-parameter name to an assumed alignment
+    (for alignment-dependent tests such as `ptr.is_aligned()`)."""
+
     def leaf(e):
         if e[0] == "proj" and e[2] and e[2][-1] == "p":
             return word
+        if e[0] == "call" and e[2] == "is_aligned" and e[3] and align_of is not None:
+            a = align_of.get(e[4][0] if e[4] else None)
+            v = symx.eval_int(e[3][0], leaf)
+            if a is None or v is None:
+                return None
+            return int(v % a == 0)
+        if e[0] == "call" and e[2] in ("align_of",) and align_of is not None and e[4]:
+            return align_of.get(e[4][0])
         return None
 
     return leaf
@@ -64,18 +78,26 @@ def run(ctx, rep):
             ds = B.defs().get(0, [])
             e = symx.local_expr(F, B, 0, 0)
             ok = True
-            for P in SAMPLES:
-                for tagbit in (0, 1):
-                    w = P | tagbit
-                    v = symx.eval_int(e, union_word_leaf(w), bits)
-                    if v is None or bool(v) != (tagbit == 0):
-                        ok = False
+            wit = None
+            for aa in ALIGNS:
+                for ab in ALIGNS:
+                    al = {gen[0]: aa, gen[1]: ab}
+                    for P in SAMPLES:
+                        if P % max(aa, ab, 8):
+                            continue
+                        for tagbit in (0, 1):
+                            w = P | tagbit
+                            v = symx.eval_int(e, union_word_leaf(w, al), bits)
+                            if v is None or bool(v) != (tagbit == 0):
+                                ok = False
+                                wit = wit or (aa, ab, w, v)
             ik = b["key"] + "/test"
             if ok:
                 rep.ok("R-TAG", ik, symx.show(e), cfg=tag)
                 first_of[b["key"]] = True
             else:
-                rep.bad("R-TAG", ik, "is_first must answer `word & 1 == 0`; it computes %s" % symx.show(e), F.loc(b), tag)
+                aa, ab, w, v = wit
+                rep.bad("R-TAG", ik, "is_first must answer `word & 1 == 0` for every pair of payload types; it computes %s, which for payload alignments (%s: %d, %s: %d) and the stored word %#x answers %s" % (symx.show(e), gen[0], aa, gen[1], ab, w, "cannot be evaluated" if v is None else bool(v)), F.loc(b), tag)
         for b in F.method("ArcUnion", "is_second"):
             B = cfg.Body(b)
             c = B.condition({"mv": {"l": 0, "p": []}})
